@@ -45,16 +45,27 @@ def main():
                      "transcription; (b) brute force: for operand pairs with <= 5 bits every value pair's product is tested for "
                      "membership in the reported type inside Coq. distinct = distinct ordered (weight type, input type) pairs")
   # (a) translation validation of the rules: implementation vs Coq model on all pairs
-  items, texts = [], []
+  items, texts, made = [], [], []
   for wi, (wd, _, w) in enumerate(ops):
     for xi, (xd, _, x) in enumerate(ops):
       try:
         m = mf.make_multiplier(w, x)
         got = (m.implemented_as(), QK.render(m.output))
+        made.append((wd, xd, m, got))
       except Exception as e:  # pylint: disable=broad-except
         got = ("raise:" + type(e).__name__, [])
       items.append((wd, xd, got))
       texts.append(f"(let '(i, o) := make_multiplier {QK.qt_lit(w)} {QK.qt_lit(x)} in impl_code i :: render o)")
+  # histories: ONE factory makes all the multipliers of a model and qtools reads their types at the end.  Every multiplier
+  # made above is still alive: what it reports now must be what it reported when it was made.
+  n_late = 0
+  for wd, xd, m, got in made:
+    late = (m.implemented_as(), QK.render(m.output))
+    if late != got:
+      n_late += 1
+      rep.violation(f"type-changed-after-later-calls-{wd}-{xd}", f"the multiplier made for {wd} x {xd} reported {got} when it was made and reports {late} after later "
+                    "make_multiplier calls on the same MultiplierFactory (its output type object is shared)", {"w": wd, "x": xd, "at_creation": got, "later": late})
+  rep.note(multipliers_reread_after_all_calls=len(made), changed=n_late)
   shards = []
   SH = 1500
   for s in range(0, len(texts), SH):
